@@ -102,6 +102,46 @@ def gen(rng, cid):
     return '\n'.join(lines)
 
 
+def gen_abort(rng, cid):
+    """Follow-up C07d: one detail::condition_variable used directly with its spinlock; waiters (untimed and
+    timed, 1-3 waits each: a woken / aborted waiter waits again), notifiers, and ONE thread that calls
+    abort_all (once or twice).  Model: Model/CVAbort.lean (driver `cvabort`)."""
+    k = rng.weighted([(2, 3), (3, 5), (4, 4), (5, 2), (6, 1)])
+    ab = rng.below(k)
+    lines = []
+    waiters = []
+    for t in range(k):
+        ops = []
+        if t == ab:
+            for _ in range(rng.weighted([(1, 4), (2, 1)])):
+                if rng.below(5) == 0:
+                    ops.append(rng.weighted([('dn1', 1), ('dnall', 1)]))
+                ops.append('abortall')
+        else:
+            kind = rng.weighted([('waiter', 8), ('notifier', 2), ('mixed', 2)])
+            if kind == 'notifier':
+                for _ in range(1 + rng.below(2)):
+                    ops.append(rng.weighted([('dn1', 3), ('dnall', 2)]))
+            else:
+                waiters.append(t)
+                for _ in range(rng.weighted([(1, 4), (2, 3), (3, 1)])):
+                    ops.append(rng.weighted([('dwait', 5), ('dtwait', 2)]))
+                    if kind == 'mixed' and rng.below(2) == 0:
+                        ops.append(rng.weighted([('dn1', 3), ('dnall', 1)]))
+        lines.append(f'thread {t}: ' + ' ; '.join(ops) + ' ;')
+    hdr = f'case {cid} cv=detail model=cvabort seed={rng.below(1 << 30)} strat={rng.weighted([(0, 5), (1, 3), (2, 2)])}'
+    if waiters and rng.below(2) == 0:
+        # let some waiters park first, then (sometimes) run the aborter up to its first unlock
+        sc = []
+        for w in waiters:
+            if rng.below(4) != 0:
+                sc += [str(w)] * (3 + rng.below(3))
+        if rng.below(2) == 0:
+            sc += [str(ab)] * (2 + rng.below(5))
+        hdr += ' script=' + ','.join(sc)
+    return '\n'.join([hdr] + lines + ['endcase'])
+
+
 def nontrivial(c, r):
     # a case is non-trivial when some thread really enqueued on the condition variable
     return ' cv.enq ' in r['raw']
@@ -121,6 +161,10 @@ def stats(c, r):
             'stop_unlinked_by_waiter': sum(1 for l in raw.split('\n') if ' stop.unlink ' in l and l.split()[3] == '1'),
             'stop_dtor_waited_for_requester': raw.count(' stop.waited '),
             'pika_task_cases': 1 if ' mode=pika' in c.split('\n')[0] else 0,
+            'abort_all_calls': raw.count(' inv.abortall '), 'abort_all_swaps': raw.count(' cv.ab.swap '),
+            'abort_all_pops': raw.count(' cv.ab.pop '), 'waits_that_threw': raw.count(' cv.threw '),
+            'abort_all_extra_swaps_after_concurrent_enqueue': max(0, raw.count(' cv.ab.swap ') - raw.count(' inv.abortall ')),
+            'abort_calls_after_target_left_its_wait': int(r['verdict'].split('late-abort=')[1].split()[0]) if 'late-abort=' in r.get('verdict', '') else 0,
             'pred_evals': raw.count(' pred '), 'lock_spins': raw.count(' ag.yield ') + raw.count(' ul.spin '),
             'deadlock_end': 1 if 'end deadlock' in raw else 0}
 
@@ -163,9 +207,11 @@ def agent_source_obligations():
 
 _unwrap_replay()
 e1check.run(dict(
-    prop='C07', props=['C07', 'C07Agent'], extra_check=live_tier, extra_obligations=agent_source_obligations, model='cv', harness='e1/cv.cpp', bin='e1_cv', gen=gen, nontrivial=nontrivial, stats=stats,
+    prop='C07', props=['C07', 'C07Agent', 'C07d'], extra_check=live_tier, extra_obligations=agent_source_obligations, model='cv', harness='e1/cv.cpp', bin='e1_cv', gen=gen, nontrivial=nontrivial, stats=stats,
     quick=6000, thorough=150000, extra=12000,
-    rule='random programs (2-6 threads, 1-3 blocks each: waiter blocks lock;wait|wait(pred)|wait_for|wait_for(pred)|wait(stop_token,pred)|wait_for(stop_token,d,pred);unlock, notifier blocks with set/notify_one/notify_all inside or after the critical section, bare notifies, request_stop inside/after/without a critical section) on one pika::condition_variable or condition_variable_any with a user-defined lock (via std::unique_lock or directly) or std::unique_lock<spinlock>, one shared stop_source in about 40 % of the condition_variable_any cases (a few of them on pika tasks instead of OS threads), PRNG schedules (uniform / priority / sticky; a third of the stop-token cases with a directed prefix of 2-4 long single-thread runs, and 1 in 8 of them a preemption-bounded probe: 1-2 stop-token waiters run a chosen number of steps, then request_stop runs to completion), virtual deadlines; non-trivial = at least one thread enqueued on the condition variable; distinct = distinct (program, schedule seed) text',
+    batches=[dict(model='cv', gen=gen, quick=6000, thorough=150000, extra=12000),
+             dict(model='cvabort', gen=gen_abort, quick=1500, thorough=40000, extra=4000)],
+    rule='random programs (2-6 threads, 1-3 blocks each: waiter blocks lock;wait|wait(pred)|wait_for|wait_for(pred)|wait(stop_token,pred)|wait_for(stop_token,d,pred);unlock, notifier blocks with set/notify_one/notify_all inside or after the critical section, bare notifies, request_stop inside/after/without a critical section) on one pika::condition_variable or condition_variable_any with a user-defined lock (via std::unique_lock or directly) or std::unique_lock<spinlock>, one shared stop_source in about 40 % of the condition_variable_any cases (a few of them on pika tasks instead of OS threads), PRNG schedules (uniform / priority / sticky; a third of the stop-token cases with a directed prefix of 2-4 long single-thread runs, and 1 in 8 of them a preemption-bounded probe: 1-2 stop-token waiters run a chosen number of steps, then request_stop runs to completion), virtual deadlines; non-trivial = at least one thread enqueued on the condition variable; distinct = distinct (program, schedule seed) text; second batch (follow-up C07d, model cvabort): 2-6 threads on one detail::condition_variable + its spinlock, waiters (wait / wait_for, 1-3 times each, catching the abort exception), notifiers, one thread calling abort_all once or twice, half of the cases with a directed prefix that parks waiters first',
     assumptions=['the stop state of the stop-token waits is modelled through the interface events of Model/CV.lean (its lock loops are the subject of C14; the stop.* lines of every log are also replayed through C14\'s acceptor); one shared stop_source',
                  'the user lock is modelled as an abstract mutual-exclusion lock; pika::mutex as the user lock (needs pika task identity) is not exercised by the harness',
                  'predicate state is changed only while holding the user lock (operation set)',
